@@ -1,7 +1,7 @@
 (* C10 — per-family tree profiles are correct and add up to the whole-dataset profile. *)
 From Coq Require Import List Arith Bool String.
 From PyHam Require Import Tax Ortho Mapper Preds Profile.
-From PyHam.proofs Require Import PartitionFacts FamilyProfileFacts.
+From PyHam.proofs Require Import PartitionFacts FamilyProfileFacts AdditiveFacts.
 Import ListNotations.
 
 (* at every node below the family's taxon: nbr_genes is the number of family members living there,
@@ -24,14 +24,34 @@ Theorem c10_root : forall h, exists n, hog_node h (htax h) = (htax h, n, None).
 Proof. exact family_root_node. Qed.
 Print Assumptions c10_root.
 
-(* additivity, gene-count part: the size of every genome is the sum over all families and singletons
-   of their members living there (the remaining sums - retained, duplicated, lost, duplication events,
-   gains - are checked on the implementation by the harness; their proof is not part of this file:
-   see DESIGN.md, C10 is labelled partial) *)
-Theorem c10_additive_partial : forall fo v,
+(* additivity: on every branch (node a :: u below its parent u) of an aligned forest, the node of the
+   whole-dataset profile is the sum over all roots - top-level HOGs and singletons - of what each
+   contributes (fam_feat): a gain (one event) at the root's own taxon, and at every other node the
+   retained / duplicated / lost / duplication / events counts of its per-family profile.  Gene counts add
+   up as well.  Hypothesis: wfb (C02), which every consistent load satisfies. *)
+Theorem c10_additive : forall t fo a u,
+  wfb t fo = true ->
+  full_node fo (a :: u) =
+    (a :: u, list_sum (map (fun r => List.length (members_at r (a :: u))) (fo_roots fo)),
+     Some (feat_sum (map (fun r => fam_feat r (a :: u)) (fo_roots fo)))).
+Proof. exact additive. Qed.
+Print Assumptions c10_additive.
+
+(* only the families whose per-family profile covers the node (the node lies in the clade of the
+   family's taxon) contribute: the others add zero *)
+Theorem c10_additive_covering : forall t fo a u,
+  wfb t fo = true ->
+  full_node fo (a :: u) =
+    (a :: u, list_sum (map (fun r => List.length (members_at r (a :: u))) (fo_roots fo)),
+     Some (feat_sum (map (fun r => fam_feat r (a :: u)) (filter (covers (a :: u)) (fo_roots fo))))).
+Proof. exact additive_covering. Qed.
+Print Assumptions c10_additive_covering.
+
+(* the root node of the whole-dataset profile carries the gene count only, and that count adds up too *)
+Theorem c10_additive_genes : forall fo v,
   List.length (genome_refs fo v) = list_sum (map (fun r => List.length (members_at r v)) (fo_roots fo)).
 Proof. exact nbr_genes_additive. Qed.
-Print Assumptions c10_additive_partial.
+Print Assumptions c10_additive_genes.
 
 Definition m0 : hmeta := {| m_id := None; m_og := None; m_props := []; m_scores := []; m_synth := false |}.
 Definition fam : hog :=
@@ -42,3 +62,11 @@ Example c10_nonvacuous :
   hog_node fam [0; 1] = ([0; 1], 2, Some {| hf_retained := 0; hf_dupl := 2; hf_lost := 0; hf_duplication := 1; hf_events := 1 |}) /\
   hog_node fam [1; 0; 1] = ([1; 0; 1], 1, Some {| hf_retained := 1; hf_dupl := 0; hf_lost := 1; hf_duplication := 0; hf_events := 1 |}).
 Proof. vm_compute. split; reflexivity. Qed.
+
+Definition tr10 : stree := SNode "R" [SNode "X" []; SNode "M" [SNode "E" [SNode "H" []; SNode "P" []]; SNode "C" []]].
+Definition fo10 : forest := {| fo_tops := [fam]; fo_singles := [HGene "x9" [0]] |}.
+Example c10_additive_nonvacuous :
+  wfb tr10 fo10 = true /\
+  full_node fo10 [0; 1] = ([0; 1], 2, Some (feat_sum (map (fun r => fam_feat r [0; 1]) (fo_roots fo10)))) /\
+  full_node fo10 [0] = ([0], 1, Some (feat_sum (map (fun r => fam_feat r [0]) (fo_roots fo10)))).
+Proof. vm_compute. repeat split. Qed.
